@@ -557,3 +557,17 @@ Proof.
 Qed.
 
 End P.
+
+(* the hypotheses are satisfiable: the harness's sources *)
+Lemma hypotheses_examples :
+  honest_source [262144; 262144; 1] (mkSource true true (Some 524289) [Some 262144; None] true) /\
+  honest_source [262144; 262144; 1] (mkSource true true (Some 524289) [Some 262144; Some 262144; Some 1] false) /\
+  honest_z [65536; 5] (mkZ true [Some 65536; Some 5] true) /\
+  (forall cs, honest_valid [1; 1; 1] (mkCS cs (fun c => list_beq Z.eqb c [1; 1; 1]))).
+Proof.
+  split; [|split; [|split]].
+  - split; [intros len H; injection H as <-; reflexivity|repeat constructor].
+  - split; [intros len H; injection H as <-; reflexivity|repeat constructor].
+  - repeat constructor.
+  - intros cs c H. cbn [x_valid] in H. apply (list_beq_eq Z.eqb) in H; [exact H|intros; apply Z.eqb_eq].
+Qed.
